@@ -18,6 +18,7 @@ ENUM_SOURCES = {
     'OpenFlags': 'include/nix/base/IFile.hpp',
     'LinkType': 'include/nix/base/IFeature.hpp',
     'DataType': 'include/nix/DataType.hpp',
+    'Compression': 'include/nix/Compression.hpp',
 }
 
 _file_cache = {}
@@ -146,6 +147,7 @@ def extract(unit, enums, sigs):
         if len(ms) != 1 or len(me) != 1 or me[0].end() <= ms[0].start():
             raise ExtractError('region anchors of %s matched %d / %d times' % (unit.get('cname'), len(ms), len(me)))
         r0 = b_open + ms[0].start(); r1 = b_open + me[0].end()
+        if region.get('strip_first_brace'): r0 += 1
         fake = '%s %s(%s) {%s%s}' % (region.get('ret', 'void'), 'REGION', ', '.join('%s %s' % p for p in region['params']), src[r0:r1],
                                    (' return %s;' % region['ret_expr']) if region.get('ret_expr') else '')
         off = len(src)
